@@ -388,7 +388,10 @@ pub fn ref_ctl_key(cfg: &TokCfg, input: &str) -> String {
         switch: policy,
         _m: std::marker::PhantomData,
     };
-    rtok::RTok::run_partial(rc, s).ctl_key()
+    // the reference pre-processes its input stream (CR LF -> LF); a trailing CR is the one piece of
+    // pre-processor state that is not visible in the tokenizer state proper, and it must be part of the
+    // product key: otherwise "\r" and "\rx" merge whenever the implementation state happens to coincide
+    format!("{}|cr={}", rtok::RTok::run_partial(rc, s).ctl_key(), s.ends_with('\r'))
 }
 
 /// Compare a real run (with end) against the reference. Returns (kind, message).
